@@ -708,8 +708,12 @@ def run(cs, cfg):
                 rec.update(op=name, unique=u, arg=["valid", "wrong_len", "wrong_shape"][bad])
                 prereq = prereq_flat(st, u) if flat else st["GL"][u]
                 expected = None
+                # where the caller's tensors come from: fresh ones, or the very objects the Packer listed (an identity
+                # round trip: a wrapper that rebuilds its object with unchanged parameters)
+                same_tensors = cs.bool("same_tensors", 1, 4)
+                rec["tensors"] = "listed" if same_tensors else "fresh"
                 if not flat:
-                    new = [fresh(t.shape) for t in tgt]
+                    new = list(tgt) if same_tensors else [fresh(t.shape) for t in tgt]
                     if not u and dag:
                         # positions that are one physical place (a container referenced twice) get one tensor:
                         # anything else has no single right answer
@@ -743,7 +747,7 @@ def run(cs, cfg):
                             bad = 0
                             rec["arg"] = "valid"
                     elif len(tgt) == 1:
-                        a = fresh(tgt[0].shape)
+                        a = tgt[0] if same_tensors else fresh(tgt[0].shape)
                     else:
                         a = fresh((sum(t.numel() for t in tgt),))
                         if not u and dag:
@@ -804,6 +808,8 @@ def run(cs, cfg):
                             raise Mismatch("argument_modified", "the caller's tensor list was modified")
                         if u and nslots > nuniq:
                             cnt("reach.aliased_rebuild")
+                        if same_tensors and not zero:
+                            cnt("reach.identity_round_trip")
                         if zero:
                             cnt("reach.zero_tensor_rebuild")
                         container_ids(res, "an earlier result (step %d)" % step, foreign)
